@@ -356,3 +356,94 @@ Proof.
 Qed.
 
 Print Assumptions output_content.
+
+(* ---------- further consequences ---------- *)
+
+(* line feeds are single bytes that never take part in a marker *)
+Lemma lf_toks_lex s : lf_toks (lex s) = map TB (filter (fun c => c =? LF) s).
+Proof.
+  induction s as [| r IH | r IH | c r Hm IH] using lex_ind3.
+  - reflexivity.
+  - rewrite lex_start. cbn [lf_toks filter]. fold (lf_toks (lex r)). rewrite IH. reflexivity.
+  - rewrite lex_end. cbn [lf_toks filter]. fold (lf_toks (lex r)). rewrite IH. reflexivity.
+  - rewrite lex_byte by assumption. cbn [lf_toks filter]. fold (lf_toks (lex r)). rewrite IH.
+    destruct (c =? LF); reflexivity.
+Qed.
+
+(* the public view of a history: an unsafe-mode payload is reduced to its line feeds *)
+Definition next_mode (m : mode) (o : op) : mode :=
+  match o with OMode m' => m' | OTake | OReset => MUnsafe | _ => m end.
+
+Fixpoint pub (m : mode) (ops : list op) : list op :=
+  match ops with
+  | [] => []
+  | o :: r =>
+    (match m, payload_of m o with
+     | MUnsafe, Some p => OWrite (filter (fun c => c =? LF) p)
+     | _, _ => o
+     end) :: pub (next_mode m o) r
+  end.
+
+Lemma filter_lf_idem (p : bytes) :
+  filter (fun c => c =? LF) (filter (fun c => c =? LF) p) = filter (fun c => c =? LF) p.
+Proof.
+  induction p as [|c r IH]; [reflexivity|]. cbn [filter].
+  destruct (c =? LF) eqn:E; [cbn [filter]; rewrite E, IH; reflexivity | exact IH].
+Qed.
+
+Theorem spec_safe_pub ops : forall m acc,
+  spec_from safe_contrib m acc (pub m ops) = spec_from safe_contrib m acc ops.
+Proof.
+  induction ops as [|o r IH]; intros m acc; [reflexivity|].
+  cbn [pub]. destruct m.
+  - (* unsafe mode *)
+    destruct (payload_of MUnsafe o) as [p|] eqn:E.
+    + assert (spec_from safe_contrib MUnsafe acc (o :: r) =
+              spec_from safe_contrib MUnsafe (acc ++ lf_toks (lex p)) r) as ->.
+      { destruct o; cbn [payload_of] in E; try discriminate; cbn [spec_from payload_of];
+          injection E as <-; reflexivity. }
+      assert (next_mode MUnsafe o = MUnsafe) as ->.
+      { destruct o; cbn [payload_of] in E; try discriminate; reflexivity. }
+      cbn [spec_from payload_of safe_contrib]. rewrite IH.
+      rewrite !lf_toks_lex, filter_lf_idem. reflexivity.
+    + destruct o; cbn [payload_of] in E; try discriminate; cbn [spec_from next_mode payload_of]; apply IH.
+  - destruct o; cbn [spec_from next_mode payload_of]; rewrite IH; reflexivity.
+  - destruct o; cbn [spec_from next_mode payload_of]; rewrite IH; reflexivity.
+Qed.
+
+(* Two histories with the same public view have the same text outside envelopes. *)
+Theorem safe_text_noninterference ops1 ops2 :
+  pub MUnsafe ops1 = pub MUnsafe ops2 ->
+  rawok ops1 = true -> content_ok ops1 = true -> rawok ops2 = true -> content_ok ops2 = true ->
+  del_env (lex (output ops1)) = del_env (lex (output ops2)).
+Proof.
+  intros Hp R1 C1 R2 C2.
+  rewrite (proj2 (output_content ops1 R1 C1)), (proj2 (output_content ops2 R2 C2)).
+  unfold spec_safe. rewrite <- (spec_safe_pub ops1), <- (spec_safe_pub ops2), Hp. reflexivity.
+Qed.
+
+(* writes made in the same mode concatenate: how a payload is split over calls is immaterial *)
+Theorem write_split b p1 p2 : write (write b p1) p2 = write b (p1 ++ p2).
+Proof.
+  destruct b as [bf vu m o]. unfold write, start_write.
+  destruct m, o; cbn [bmode markerOpen mode_eqb negb andb set_buf buf validUntil start_redactable set_valid set_open];
+    rewrite ?app_assoc; reflexivity.
+Qed.
+
+(* raw mode neither escapes nor envelopes: printing a redactable copies it *)
+Theorem raw_copy r :
+  last_invalid r = false ->
+  output [OMode MSafe; OMode MRaw; OWrite r; OMode MSafe] = r.
+Proof.
+  intros H. unfold output, run, run_from. cbn [fold_left step fst].
+  change (set_mode init MSafe) with (mkBuf [] 0 MSafe false).
+  change (set_mode (mkBuf [] 0 MSafe false) MRaw) with (mkBuf [] 0 MRaw false).
+  change (write (mkBuf [] 0 MRaw false) r) with (mkBuf r 0 MRaw false).
+  change (set_mode (mkBuf r 0 MRaw false) MSafe) with (mkBuf r (length r) MSafe false).
+  unfold redactable_bytes, finalize, escape_to_end. cbn [bmode buf validUntil mode_eqb markerOpen set_valid set_buf].
+  replace r with (r ++ []) at 1 by apply app_nil_r.
+  rewrite (escape_spec false r []). unfold esc_spec. rewrite app_nil_r, H. cbn [lex esc_toks]. apply app_nil_r.
+Qed.
+
+Print Assumptions safe_text_noninterference.
+Print Assumptions raw_copy.
